@@ -101,7 +101,7 @@ structure WorkerScript where
   refused : Nat → Bool
   id : Nat → Int
 
-def workerExt (W : WorkerScript) : Ext F := fun f n args =>
+def poolWorkerExt (W : WorkerScript) : Ext F := fun f n args =>
   if f = "recv.running" then .bool (W.running n)
   else if f = "recv.jobsToExecute.none" then .bool (W.none n)
   else if f = "recv.jobsToExecute.take" then .bool (W.take n)
@@ -139,7 +139,7 @@ def workerRounds (W : WorkerScript) : Nat → Nat → Nat → Option (List Strin
     else if W.refused j then some (pre ++ ["recv.maxIterationsReached"])
     else (workerRounds W f (r + 1) (j + 1)).map (pre ++ ["arg0.t.Reset(…)", "recv.manager.activeScenario.Run(…)"] ++ ·)
 
-def runState (me mgr it er a1 a2 : Val F) (r j : Nat) (log : List (List (String × Val F))) (tr df : List String) : State F :=
+def pwState (me mgr it er a1 a2 : Val F) (r j : Nat) (log : List (List (String × Val F))) (tr df : List String) : State F :=
   ⟨[("arg0", me), ("recv.manager", mgr), ("iteration", it), ("err", er), ("$arg.arg0.t.Reset.0", a1),
     ("$arg.recv.manager.activeScenario.Run.0", a2)],
    [("recv.running", r), ("recv.jobsToExecute.none", r), ("recv.jobsToExecute.take", r), ("NextIteration", j),
@@ -153,42 +153,42 @@ def obsTrace (o : Outcome F) : Option (List String × List String) :=
 
 theorem runLoop_spec (W : WorkerScript) (me mgr : Val F) (df : List String) :
     ∀ (fuel r j : Nat) (it er a1 a2 : Val F) (log : List (List (String × Val F))) (tr : List String),
-    obsTrace (exec (workerExt W) fuel runLoop (runState me mgr it er a1 a2 r j log tr df)) =
+    obsTrace (exec (poolWorkerExt W) fuel runLoop (pwState me mgr it er a1 a2 r j log tr df)) =
       (workerRounds W fuel r j).map (fun t => (tr.reverse ++ t, df))
-  | 0, r, j, it, er, a1, a2, log, tr => by simp [minigo, runLoop, runState, workerRounds, obsTrace]
+  | 0, r, j, it, er, a1, a2, log, tr => by simp [minigo, runLoop, pwState, workerRounds, obsTrace]
   | f + 1, r, j, it, er, a1, a2, log, tr => by
     by_cases hr : W.running r = true
     · by_cases ht : W.take r = true
       · by_cases hx : W.refused j = true
         · cases hn : W.none r <;>
-            simp [minigo, runLoop, runState, workerRounds, workerExt, obsTrace, hr, ht, hx, hn]
+            simp [minigo, runLoop, pwState, workerRounds, poolWorkerExt, obsTrace, hr, ht, hx, hn]
         · cases hn : W.none r
           · have ih := runLoop_spec W me mgr df f (r + 1) (j + 1) (.int (W.id j)) .nil (.ref (W.id j).toNat) me
               (log ++ [[("0", mgr)]])
               ("recv.manager.activeScenario.Run(…)" :: "arg0.t.Reset(…)" :: "hook pool.worker.pretake" :: tr)
-            simp [runLoop, runState] at ih
-            simp [minigo, runLoop, runState, workerRounds, workerExt, hr, ht, hx, hn]
+            simp [runLoop, pwState] at ih
+            simp [minigo, runLoop, pwState, workerRounds, poolWorkerExt, hr, ht, hx, hn]
             rw [ih]
             cases workerRounds W f (r + 1) (j + 1) <;> simp
           · have ih := runLoop_spec W me mgr df f (r + 1) (j + 1) (.int (W.id j)) .nil (.ref (W.id j).toNat) me
               (log ++ [[("0", mgr)]])
               ("recv.manager.activeScenario.Run(…)" :: "arg0.t.Reset(…)" :: "hook pool.worker.pretake" :: "recv.waitForNewJobs" :: tr)
-            simp [runLoop, runState] at ih
-            simp [minigo, runLoop, runState, workerRounds, workerExt, hr, ht, hx, hn]
+            simp [runLoop, pwState] at ih
+            simp [minigo, runLoop, pwState, workerRounds, poolWorkerExt, hr, ht, hx, hn]
             rw [ih]
             cases workerRounds W f (r + 1) (j + 1) <;> simp
       · cases hn : W.none r
         · have ih := runLoop_spec W me mgr df f (r + 1) j it er a1 a2 log ("hook pool.worker.pretake" :: tr)
-          simp [runLoop, runState] at ih
-          simp [minigo, runLoop, runState, workerRounds, workerExt, hr, ht, hn]
+          simp [runLoop, pwState] at ih
+          simp [minigo, runLoop, pwState, workerRounds, poolWorkerExt, hr, ht, hn]
           rw [ih]
           cases workerRounds W f (r + 1) j <;> simp
         · have ih := runLoop_spec W me mgr df f (r + 1) j it er a1 a2 log ("hook pool.worker.pretake" :: "recv.waitForNewJobs" :: tr)
-          simp [runLoop, runState] at ih
-          simp [minigo, runLoop, runState, workerRounds, workerExt, hr, ht, hn]
+          simp [runLoop, pwState] at ih
+          simp [minigo, runLoop, pwState, workerRounds, poolWorkerExt, hr, ht, hn]
           rw [ih]
           cases workerRounds W f (r + 1) j <;> simp
-    · simp [minigo, runLoop, runState, workerRounds, workerExt, obsTrace, hr]
+    · simp [minigo, runLoop, pwState, workerRounds, poolWorkerExt, obsTrace, hr]
 
 /-- the effects of a finished call, oldest first (`none`: it did not finish) -/
 def traceOpt (r : Except String (List (Val F) × State F)) : Option (List String) :=
@@ -211,25 +211,25 @@ id granted is followed by `Reset` of *its* handle and then `Run`. Whichever way 
 manager's wait group (deferred), exactly once. -/
 theorem pool_run_refines (W : WorkerScript) (me mgr it er a1 a2 : Val F) (r j : Nat) (log : List (List (String × Val F)))
     (fuel : Nat) (t : List String) (h : workerRounds W fuel r j = some t) :
-    traceOpt (runFn (workerExt W) fuel pool_run (runState me mgr it er a1 a2 r j log [] [])) =
+    traceOpt (runFn (poolWorkerExt W) fuel pool_run (pwState me mgr it er a1 a2 r j log [] [])) =
       some (["arg1.Done"] ++ t ++ ["recv.manager.runningWorkers.Done"]) := by
   have hl := runLoop_spec W me mgr ["recv.manager.runningWorkers.Done"] fuel r j it er a1 a2 log ["arg1.Done"]
   rw [h] at hl
-  simp [runLoop, runState] at hl
+  simp [runLoop, pwState] at hl
   have := finish_obsTrace _ _ _ hl
-  simp [minigo, pool_run, runState]
+  simp [minigo, pool_run, pwState]
   simpa using this
 
 /-- one round in which a job is taken and an id granted: the id asked of *the pool's manager* is the one the handle is
 reset with (as its decimal string), and the iteration is run on *this worker's own* state -/
 theorem pool_run_round (W : WorkerScript) (me mgr it er a1 a2 : Val F) (log : List (List (String × Val F)))
     (h0 : W.running 0 = true) (h1 : W.running 1 = false) (ht : W.take 0 = true) (hr : W.refused 0 = false) :
-    (match runFn (workerExt W) 2 pool_run (runState me mgr it er a1 a2 0 0 log [] []) with
+    (match runFn (poolWorkerExt W) 2 pool_run (pwState me mgr it er a1 a2 0 0 log [] []) with
      | .ok (_, s) => s.get "$arg.arg0.t.Reset.0" = some (.ref (W.id 0).toNat) ∧
          s.get "$arg.recv.manager.activeScenario.Run.0" = some me ∧
          lookup "NextIteration" s.arrs = some (log ++ [[("0", mgr)]])
      | .error _ => False) := by
-  cases hn : W.none 0 <;> simp [minigo, pool_run, runState, workerExt, h0, h1, ht, hr, hn]
+  cases hn : W.none 0 <;> simp [minigo, pool_run, pwState, poolWorkerExt, h0, h1, ht, hr, hn]
 
 /-! the users pool's worker -/
 
@@ -260,16 +260,16 @@ def usersState (me mgr it er a1 a2 : Val F) (stop : Bool) (j : Nat) (log : List 
 
 theorem usersLoop_spec (W : WorkerScript) (me mgr : Val F) (df : List String) :
     ∀ (fuel j : Nat) (it er a1 a2 : Val F) (log : List (List (String × Val F))) (tr : List String),
-    obsTrace (exec (workerExt W) fuel usersLoop (usersState me mgr it er a1 a2 false j log tr df)) =
+    obsTrace (exec (poolWorkerExt W) fuel usersLoop (usersState me mgr it er a1 a2 false j log tr df)) =
       (usersRounds W fuel j).map (fun t => (tr.reverse ++ t, df))
   | 0, j, it, er, a1, a2, log, tr => by simp [minigo, usersLoop, usersState, usersRounds, obsTrace]
   | f + 1, j, it, er, a1, a2, log, tr => by
     by_cases hx : W.refused j = true
-    · simp [minigo, usersLoop, usersState, usersRounds, workerExt, obsTrace, hx]
+    · simp [minigo, usersLoop, usersState, usersRounds, poolWorkerExt, obsTrace, hx]
     · have ih := usersLoop_spec W me mgr df f (j + 1) (.int (W.id j)) .nil (.ref (W.id j).toNat) me (log ++ [[("0", mgr)]])
         ("recv.manager.activeScenario.Run(…)" :: "arg0.t.Reset(…)" :: tr)
       simp [usersLoop, usersState] at ih
-      simp [minigo, usersLoop, usersState, usersRounds, workerExt, hx]
+      simp [minigo, usersLoop, usersState, usersRounds, poolWorkerExt, hx]
       rw [ih]
       cases usersRounds W f (j + 1) <;> simp
 
@@ -278,7 +278,7 @@ barrier) before its first iteration; with the stop flag up it runs nothing; othe
 with a fresh id, until one is refused; `Done` on the manager's wait group is its last act -/
 theorem cpool_startWorker_refines (W : WorkerScript) (me mgr it er a1 a2 : Val F) (stop : Bool) (j : Nat)
     (log : List (List (String × Val F))) (fuel : Nat) (t : List String) (h : usersRounds W fuel j = some t) :
-    traceOpt (runFn (workerExt W) fuel cpool_startWorker (usersState me mgr it er a1 a2 stop j log [] [])) =
+    traceOpt (runFn (poolWorkerExt W) fuel cpool_startWorker (usersState me mgr it er a1 a2 stop j log [] [])) =
       some (["arg1.Done", "arg1.Wait"] ++ (if stop then [] else t) ++ ["recv.manager.runningWorkers.Done"]) := by
   cases stop
   · have hl := usersLoop_spec W me mgr ["recv.manager.runningWorkers.Done"] fuel j it er a1 a2 log ["arg1.Wait", "arg1.Done"]
@@ -309,7 +309,7 @@ def waitsCount (W : WorkerScript) : Nat → Nat → Nat → Option Nat
     else some 0
 
 theorem waitLoop_spec (W : WorkerScript) (df : List String) : ∀ (fuel nn nr : Nat) (tr : List String),
-    obsN (exec (workerExt (F := F) W) fuel waitLoop
+    obsN (exec (poolWorkerExt (F := F) W) fuel waitLoop
         ⟨[], [("recv.jobsToExecute.none", nn), ("recv.running", nr)], tr, df, []⟩) =
       (waitsCount W fuel nn nr).map fun k => (tr.reverse ++ List.replicate k "recv.jobsAvailableCond.Wait", df)
   | 0, nn, nr, tr => by simp [minigo, waitLoop, waitsCount, obsN]
@@ -318,24 +318,24 @@ theorem waitLoop_spec (W : WorkerScript) (df : List String) : ∀ (fuel nn nr : 
     · by_cases hr : W.running nr = true
       · have ih := waitLoop_spec W df f (nn + 1) (nr + 1) ("recv.jobsAvailableCond.Wait" :: tr)
         simp [waitLoop] at ih
-        simp [minigo, waitLoop, waitsCount, workerExt, hn, hr]
+        simp [minigo, waitLoop, waitsCount, poolWorkerExt, hn, hr]
         rw [ih]
         cases waitsCount W f (nn + 1) (nr + 1) <;> simp [List.replicate_succ]
-      · simp [minigo, waitLoop, waitsCount, workerExt, obsN, hn, hr]
-    · simp [minigo, waitLoop, waitsCount, workerExt, obsN, hn]
+      · simp [minigo, waitLoop, waitsCount, poolWorkerExt, obsN, hn, hr]
+    · simp [minigo, waitLoop, waitsCount, poolWorkerExt, obsN, hn]
 
 /-- **the regenerated `waitForNewJobs`**: the emptiness test, the stop test and every wait happen with the pool's lock
 held (the lock the tick's swap-and-broadcast holds too: no wake-up can fall between the test and the wait); the worker
 sleeps only while nothing is pending *and* the pool is running -/
 theorem pool_waitForNewJobs_refines (W : WorkerScript) (fuel nn nr k : Nat) (h : waitsCount W fuel nn nr = some k) :
-    traceOpt (runFn (workerExt (F := F) W) fuel pool_waitForNewJobs
+    traceOpt (runFn (poolWorkerExt (F := F) W) fuel pool_waitForNewJobs
         ⟨[], [("recv.jobsToExecute.none", nn), ("recv.running", nr)], [], [], []⟩) =
       some (["recv.jobsAvailableCond.L.Lock"] ++ List.replicate k "recv.jobsAvailableCond.Wait" ++ ["recv.jobsAvailableCond.L.Unlock"]) := by
   have hl := waitLoop_spec (F := F) W [] fuel nn nr ["recv.jobsAvailableCond.L.Lock"]
   rw [h] at hl
   simp [waitLoop] at hl
   simp [minigo, pool_waitForNewJobs]
-  generalize exec (workerExt (F := F) W) fuel _ _ = o at hl ⊢
+  generalize exec (poolWorkerExt (F := F) W) fuel _ _ = o at hl ⊢
   cases o with
   | normal s => simp [obsN] at hl; simp [minigo, traceOpt, hl, exec]
   | returned vs s => simp [obsN] at hl
